@@ -2,7 +2,7 @@
 C14 - probed system description and derived machine model match the machine.
 Property theorems; long proofs live in RigModel/Lemmas/C14.lean.
 -/
-import RigModel.Lemmas.C14d
+import RigModel.Lemmas.C14f
 set_option linter.unusedSimpArgs false
 set_option linter.unusedVariables false
 
@@ -153,6 +153,65 @@ theorem global_reservation_shared (si : SysInfo) (hnd : (si.chips.map (·.1)).No
   cases hb : busy ci p
   · rw [hb] at hc; simp only [Bool.false_eq_true, if_false] at hc; omega
   · rfl
+
+/-- **Console buffer.** If the machine holds the chain `blocks` (each block: header next / time / ms /
+length, then the buffer; the last `next` is 0), walking it from its head returns the concatenation of
+the first `length` bytes of every block's buffer, in chain order (the whole buffer when `length`
+exceeds it). -/
+theorem iobuf_chain (rd : Rd) (size : Nat) (blocks : List IoBlock) (fuel : Nat) (acc : List Nat)
+    (hc : ChainIn rd size blocks) (hf : blocks.length < fuel) :
+    iobufLoop rd size fuel (chainNext blocks) acc = .ok (acc ++ chainText blocks) :=
+  iobufLoop_spec rd size blocks fuel acc hc hf
+
+/-- `get_iobuf_bytes` end to end: block size from `sv.iobuf_size`, head from the core's vcpu block
+(`sv.vcpu_base + 128 p + 0x58`) -/
+theorem iobuf_bytes_exact (rd : Rd) (size vbase p fuel : Nat) (blocks : List IoBlock)
+    (hs : size < 4294967296) (hvb : vbase < 4294967296)
+    (h1 : rd (SV_BASE + SV_IOBUF_SIZE_OFF) SV_IOBUF_SIZE_SIZE = le32 size)
+    (h2 : rd (SV_BASE + SV_VCPU_BASE_OFF) SV_VCPU_BASE_SIZE = le32 vbase)
+    (h3 : rd (vbase + VCPU_SIZE * p + 88) 4 = le32 (chainNext blocks))
+    (hn : chainNext blocks < 4294967296)
+    (hc : ChainIn rd size blocks) (hf : blocks.length < fuel) :
+    iobufBytes rd p fuel = .ok (chainText blocks) :=
+  iobufBytes_spec rd size vbase p fuel blocks hs hvb h1 h2 h3 hn hc hf
+
+/-- non-vacuity: a two-block chain laid out in a memory satisfies `ChainIn` -/
+example : ∃ rd : Rd, ChainIn rd 4 [⟨100, 1, 2, 3, [65, 66, 67, 68]⟩, ⟨200, 0, 0, 9, [69, 70, 71, 72]⟩] ∧
+    chainText [⟨100, 1, 2, 3, [65, 66, 67, 68]⟩, ⟨200, 0, 0, 9, [69, 70, 71, 72]⟩] = [65, 66, 67, 69, 70, 71, 72] := by
+  refine ⟨fun a _ => if a = 100 then blockBytes ⟨100, 1, 2, 3, [65, 66, 67, 68]⟩ 200
+                    else blockBytes ⟨200, 0, 0, 9, [69, 70, 71, 72]⟩ 0, ?_, by decide⟩
+  simp [ChainIn, chainNext]
+
+/-- **Software version, both encodings.** The reply the machine specification builds - legacy
+(version = major * 100 + minor in the top half of arg2) or string (top half 0xFFFF, data = name NUL
+"major.minor.patch" labels NUL with numbers as decimal digit strings) - decodes to the position,
+physical / virtual core, buffer size, build date, name, numbers and labels it was built from. -/
+theorem sver_both_encodings (x y pcpu vcpu buf date : Nat) (name : List Nat)
+    (hx : x < 256) (hy : y < 256) (hp : pcpu < 256) (hv : vcpu < 256) (hb : buf < 65536) (hn : Ascii name) :
+    (∀ major minor, minor < 100 → major * 100 + minor < 65535 →
+      let r := sverLegacy x y pcpu vcpu buf date major minor name
+      decodeSver r.1 r.2.1 r.2.2.1 r.2.2.2 =
+        .ok { pos := (x, y), physCpu := pcpu, virtCpu := vcpu, bufferSize := buf, buildDate := date,
+              version := { name := rstrip0 name, major := major, minor := minor, patch := 0, labels := [] } }) ∧
+    (∀ ma mi pa labels, (∀ b ∈ name, b ≠ 0) → Digits ma → Digits mi → Digits pa → Ascii labels →
+      (∀ b ∈ labels, b ≠ 0) → (∀ c ∈ labels.head?, isDigit c = false) →
+      let r := sverString x y pcpu vcpu buf date name ma mi pa labels
+      decodeSver r.1 r.2.1 r.2.2.1 r.2.2.2 =
+        .ok { pos := (x, y), physCpu := pcpu, virtCpu := vcpu, bufferSize := buf, buildDate := date,
+              version := { name := name, major := digitsVal ma, minor := digitsVal mi, patch := digitsVal pa,
+                           labels := labels } }) := by
+  constructor
+  · intro major minor hmi hv'
+    exact decodeSver_fields x y pcpu vcpu _ buf date name _ hx hy hp hv hb
+      (sver_legacy_lem major minor buf name hmi hv' hb hn)
+  · intro ma mi pa labels hn0 hma hmi hpa hl hl0 hlh
+    exact decodeSver_fields x y pcpu vcpu 65535 buf date _ _ hx hy hp hv hb
+      (sver_string_lem buf name ma mi pa labels hb hn hn0 hma hmi hpa hl hl0 hlh)
+
+/-- non-vacuity: "2.1.0-dev" satisfies the hypotheses and the digit strings have the expected values -/
+example : Digits [50] ∧ Digits [49] ∧ Digits [48] ∧ Ascii [45, 100, 101, 118] ∧
+    (∀ c ∈ ([45, 100, 101, 118] : List Nat).head?, isDigit c = false) ∧ digitsVal [49, 50, 51] = 123 := by
+  refine ⟨⟨by decide, by decide⟩, ⟨by decide, by decide⟩, ⟨by decide, by decide⟩, by unfold Ascii; decide, by decide, by decide⟩
 
 /-- non-vacuity of the hypotheses of the last four theorems: a two-chip description -/
 def exSys : SysInfo :=
